@@ -58,6 +58,7 @@ def install_fp_duration_summaries(E):
             E.assume_global(z3.Implies(z3.And(ok, z3.fpLEQ(x, x2)), r <= r2), "Duration: monotone")
             E.assume_global(z3.Implies(z3.And(ok, z3.fpLEQ(x2, x)), r2 <= r), "Duration: monotone")
         capps.append((x, r))
+        E.refinements.append(r == z3.fpToSBV(RTZ, z3.fpMul(RNE, x, z3.FPVal(1e9, F64)), BV64))
         return r
     E.intercepts["example.com/scion-time/base/timemath.Duration"] = duration
 
@@ -73,6 +74,9 @@ def install_fp_duration_summaries(E):
             E.assume_global(z3.Implies(d <= d2, z3.fpLEQ(r, r2)), "Seconds: monotone")
             E.assume_global(z3.Implies(d2 <= d, z3.fpLEQ(r2, r)), "Seconds: monotone")
         sapps.append((d, r))
+        sec = d / bv(1000000000)
+        nsec = z3.SRem(d, bv(1000000000))
+        E.refinements.append(r == z3.fpAdd(RNE, z3.fpSignedToFP(RNE, sec, F64), z3.fpDiv(RNE, z3.fpSignedToFP(RNE, nsec, F64), z3.FPVal(1e9, F64))))
         return r
     E.intercepts["(time.Duration).Seconds"] = seconds
     from . import stubs
